@@ -493,6 +493,7 @@ func (c *fsClient) runEntry(fn *ssa.Function, runs *[]fsRun) {
 	x := newExec(c.p, c)
 	x.NormSubslice = true
 	x.Comprehend = true
+	x.FlagExits = true
 	ps := c.paramTerms(fn)
 	var root *Term
 	if len(ps) > 0 {
@@ -548,6 +549,7 @@ func (c *fsClient) runProtocol(runs *[]fsRun) {
 	x := newExec(c.p, c)
 	x.NormSubslice = true
 	x.Comprehend = true
+	x.FlagExits = true
 	stp := mk("param", "(*Stack).NewAddition.st", newAdd.Params[0].Type())
 	wr := mk("param", "(*Addition).Add.write", add.Params[1].Type())
 	st0 := c.freshState(stp)
